@@ -345,3 +345,113 @@ pub fn h_debug_adaptor<const N: usize, const M: usize>(which: u8, la: usize, lb:
     }
     kani::cover!(true, "reached");
 }
+
+// ------------------------------------------------------------------ Debug of the set adaptors, at the level of the items
+// `impl Debug for Union/Intersection/Difference/SymmetricDifference/DifferenceRef` is
+// `f.debug_list().entries(<an iterator>).finish()`.  Rendering through core::fmt costs minutes per
+// element under CBMC, which kept the text-level units at 2x1.  Here `DebugList::entries` is replaced
+// by a recording stub (an ASSUMED contract of the dependency: `entries` renders every item of its
+// argument, in order, and nothing else) so that what is decided is the part the crate is responsible
+// for: the iterator handed to `entries` yields exactly the elements the adaptor has not yielded yet.
+pub static mut REC: [u8; 8] = [0xff; 8];
+pub static mut REC_N: usize = 0;
+pub static mut REC_CALLS: usize = 0;
+
+pub fn entries_recording_stub<'a, 'b: 'a, 'c, D, I>(this: &'c mut fmt::DebugList<'a, 'b>, entries: I) -> &'c mut fmt::DebugList<'a, 'b>
+where
+    D: fmt::Debug,
+    I: IntoIterator<Item = D>,
+{
+    unsafe { REC_CALLS += 1; }
+    // every adaptor's Item is `&Mk`: one pointer
+    assert!(core::mem::size_of::<D>() == core::mem::size_of::<*const Mk>(), "stub: the items given to DebugList::entries are references to elements");
+    for d in entries {
+        let p: *const Mk = unsafe { core::mem::transmute_copy(&d) };
+        unsafe {
+            if REC_N < 8 {
+                REC[REC_N] = (*p).0;
+            }
+            REC_N += 1;
+        }
+    }
+    this
+}
+
+/// which: 0 union 1 intersection 2 difference 3 symmetric_difference 4 difference_ref
+pub fn h_debug_adaptor_items<const N: usize, const M: usize>(which: u8, la: usize, lb: usize, steps: usize) {
+    let a: Set<Mk, N> = any_set_len(la);
+    let b: Set<Mk, M> = any_set_len(lb);
+    let mut s = Sink::new();
+    macro_rules! go {
+        ($mk:expr, $msg:expr) => {{
+            let mut it = $mk;
+            if steps >= 1 { let _ = it.next(); }
+            if steps >= 2 { let _ = it.next(); }
+            let mut rest = it.clone();
+            let _ = write!(s, "{:?}", it);
+            assert!(unsafe { REC_CALLS } == 1, "C19: Debug renders one list");
+            let mut n = 0usize;
+            macro_rules! take1 {
+                () => {
+                    if let Some(x) = rest.next() {
+                        assert!(n < unsafe { REC_N } && n < 8 && unsafe { REC[n] } == x.0, $msg);
+                        n += 1;
+                    }
+                };
+            }
+            take1!();
+            take1!();
+            take1!();
+            take1!();
+            take1!();
+            take1!();
+            assert!(rest.next().is_none() && N + M <= 6);
+            assert!(n == unsafe { REC_N }, $msg);
+        }};
+    }
+    match which {
+        0 => go!(a.union(&b), "C19.Debug for Union: lists exactly the elements not yet yielded, in order (items handed to DebugList::entries)"),
+        1 => go!(a.intersection(&b), "C19.Debug for Intersection: lists exactly the elements not yet yielded, in order (items handed to DebugList::entries)"),
+        2 => go!(a.difference(&b), "C19.Debug for Difference: lists exactly the elements not yet yielded, in order (items handed to DebugList::entries)"),
+        _ => go!(a.symmetric_difference(&b), "C19.Debug for SymmetricDifference: lists exactly the elements not yet yielded, in order (items handed to DebugList::entries)"),
+    }
+    kani::cover!(true, "reached");
+}
+
+/// the same for `DifferenceRef` (sets of references), which had no Debug unit at all
+pub fn h_debug_difference_ref_items<const N: usize, const M: usize>(la: usize, lb: usize, steps: usize) {
+    let pool: [Mk; 8] = [Mk(0), Mk(1), Mk(2), Mk(3), Mk(4), Mk(5), Mk(6), Mk(7)];
+    let ia: Set<Mk, N> = any_set_len(la);
+    let ib: Set<Mk, M> = any_set_len(lb);
+    let mut a: Set<&Mk, N> = Set::new();
+    let mut b: Set<&Mk, M> = Set::new();
+    for x in ia.iter() {
+        a.insert(&pool[x.0 as usize]);
+    }
+    for x in ib.iter() {
+        b.insert(&pool[x.0 as usize]);
+    }
+    let mut s = Sink::new();
+    let mut it = a.difference_ref(&b);
+    if steps >= 1 { let _ = it.next(); }
+    if steps >= 2 { let _ = it.next(); }
+    let mut rest = it.clone();
+    let _ = write!(s, "{:?}", it);
+    assert!(unsafe { REC_CALLS } == 1, "C19: Debug renders one list");
+    let mut n = 0usize;
+    macro_rules! take1 {
+        () => {
+            if let Some(x) = rest.next() {
+                assert!(n < unsafe { REC_N } && n < 8 && unsafe { REC[n] } == x.0, "C19.Debug for DifferenceRef: lists exactly the elements not yet yielded, in order (items handed to DebugList::entries)");
+                n += 1;
+            }
+        };
+    }
+    take1!();
+    take1!();
+    take1!();
+    take1!();
+    assert!(rest.next().is_none() && N <= 4);
+    assert!(n == unsafe { REC_N }, "C19.Debug for DifferenceRef: lists exactly the elements not yet yielded, in order (items handed to DebugList::entries)");
+    kani::cover!(true, "reached");
+}
